@@ -228,6 +228,11 @@ pub enum DrawOp {
 /// probability 2^-bits only.
 pub fn colour_of(seed: u32, k: u64, bits: u32) -> u32 {
     let mask = (1u64 << bits) - 1;
+    if seed >= UNIFORM_SEED_BASE {
+        // colours whose bus bytes / components are all equal: black, white, and "greys" - the most
+        // common fill colours in practice, and the ones transports treat specially
+        return uniform_colour(seed, bits);
+    }
     if seed & 7 == 7 {
         // palette mode (one seed in eight): only three distinct colours, chosen pseudo-randomly per
         // index, so that patterns like A B A / A A B A occur (same colour at both ends of a run,
@@ -236,6 +241,27 @@ pub fn colour_of(seed: u32, k: u64, bits: u32) -> u32 {
         return (colour_hash(seed, idx) & mask) as u32;
     }
     (colour_hash(seed, k) & mask) as u32
+}
+
+/// seeds from here up select uniform colours (see `colour_of`)
+pub const UNIFORM_SEED_BASE: u32 = 0xFFFF_FF00;
+
+pub fn uniform_colour(seed: u32, bits: u32) -> u32 {
+    let v = seed & 0xff;
+    match (v, bits) {
+        (0, _) => 0,
+        (1, 16) => 0xffff,
+        (1, _) => 0x3ffff,
+        // Rgb565 raw value with equal high and low byte; Rgb666 with r == g == b
+        (_, 16) => {
+            let b = (v * 37 + 11) & 0xff;
+            b << 8 | b
+        }
+        _ => {
+            let c = (v * 5 + 3) & 63;
+            c << 12 | c << 6 | c
+        }
+    }
 }
 
 fn colour_hash(seed: u32, k: u64) -> u64 {
